@@ -417,6 +417,17 @@ def malformed_case(rng):
                 base[min(pos, len(base) - 1)] = rng.choice(b'"\\{}[],:0-e.ux\x00\xff')
             else:
                 base = base[:pos]
+        if rng.random() < 0.25:
+            # the wrong kind of closing bracket somewhere
+            idx = [i for i, ch in enumerate(base) if ch in b"]}"]
+            if idx:
+                i = rng.choice(idx)
+                base[i] = ord("}") if base[i] == ord("]") else ord("]")
+        if rng.random() < 0.15 and b"\\u" in bytes(base):
+            # damage the introducer of a second \u escape (surrogate pairs need exactly backslash-u)
+            idx = [i for i in range(len(base) - 1) if base[i:i + 2] == b"\\u"]
+            i = rng.choice(idx)
+            base[i + rng.randint(0, 1)] = rng.choice(b"nU/x ")
         text = bytes(base)
     elif r < 0.6:
         # byte-order-mark look-alikes in front of valid text: only exactly EF BB BF (and at least one more byte) is skipped
@@ -432,7 +443,8 @@ def malformed_case(rng):
             b"1.e5", b"1e", b"1e+", b"0x10", b"007", b"-0", b"-00", b"1e999", b"-1e999", b"1" * 70, b"1" * 62 + b".5", b"1" * 63 + b",",
             b'"', b'"\\', b'"\\"', b'"\\u', b'"\\u12"', b'"\\u123"', b'"\\uD800"', b'"\\uD800\\u0041"', b'"\\uDC00"', b'"\\uD800\\uDC0"',
             b'"\\uD83D\\uDE00"', b'"\\ud83d\\ude00"', b'"\\uDBFF\\uDFFF"', b'"\\u0000abc"', b'"ab\\uZZZZcd"', b'"\\u00e9\\u20ac"', b'"\\x41"', b'"\\a"',
-            b'"\\u\\"ab"x"', b'"\\u018\\\\"', b'"\\u\\\\\\\\\\"', b'"\\uD800\\u018\\\\"', b'"ab\\u00\\\\\\"', b'"a\nb"', b'"\x7f\x80\xff"',
+            b'"\\u\\"ab"x"', b'"\\u018\\\\"', b'"\\uD83D\\nDE00"', b'"\\uD83DxuDE00"', b'"\\uD83D\\\\uDE00"', b'"\\uD83D uDE00"', b'"\\uD83D\\UDE00"', b'"\\uD83D/uDE00"',
+            b"[1}", b"[}", b"[[]}", b"{]", b'{"a":1]', b'{"a":[1}}', b"[1,2}", b"[{}}", b'[1,"a"}x', b'"\\u\\\\\\\\\\"', b'"\\uD800\\u018\\\\"', b'"ab\\u00\\\\\\"', b'"a\nb"', b'"\x7f\x80\xff"',
             b"[", b"[1", b"[1,", b"[1,]", b"[,1]", b"[1 2]", b"[1,2", b"[]]", b"{", b'{"a"', b'{"a":', b'{"a":1', b'{"a":1,', b'{"a":1,}', b"{1:2}", b'{"a" 1}',
             b'{"a":1 "b":2}', b'{"a":1,"a":2}', b'{"a":1,"A":2}', b'{"":0}', b"[1,2]x", b"[1,2],", b"{}{}", b"[ \t\r\n]", b"{ \n }", b"[\x01]",
         ])
@@ -561,6 +573,21 @@ def dupmut_case(rng, parsed=False):
                     e.ops += [f"arr_add {ref} {v2}", f"arr_get {ref} {n + 1}", f"arr_size {ref}"]
                 if rng.random() < 0.3:
                     e.ops += [f"arr_remove {ref} 0", f"arr_size {ref}"]
+            # take out ORIGINAL children too (middle / last ones need intact prev links in the copy), then keep going
+            if n >= 1 and rng.random() < 0.6:
+                j = rng.choice([n - 1, n // 2, 0, rng.randrange(n)])
+                if sub[0] == "o":
+                    kj = sub[1][j][0]
+                    if [kk.lower() for kk, _ in sub[1]].count(kj.lower()) == 1:
+                        e.ops += [f"remove {ref} {hx(kj)}", f"has {ref} {hx(kj)}", f"dump {ref}"]
+                        if n >= 2 and rng.random() < 0.5:
+                            k2 = sub[1][(j + 1) % n][0]
+                            e.ops += [f"remove {ref} {hx(k2)}", f"dump {ref}"]
+                else:
+                    e.ops += [f"arr_remove {ref} {j}", f"arr_size {ref}", f"dump {ref}"]
+                    if n >= 2 and rng.random() < 0.5:
+                        e.ops += [f"arr_remove {ref} {max(j - 1, 0)}", f"dump {ref}", f"iter {ref} - -"]
+                break       # paths below this container may be gone now
             e.ops += [f"dump {ref}"]
         e.ops += [f"dump {root}", f"print {root} compact"]
     e.ops += [f"cmp d {src} 1", "reparse d formatted r0", "dump r0", "cmp r0 d 1"]
@@ -660,6 +687,115 @@ def align_case(rng, pad):
     s = e.build(t)
     e.ops += [f"print {s} compact", f"print {s} formatted", f"reparse {s} compact r0", "dump r0"]
     return e.case({"kind": "align", "pad": pad})
+
+
+def _variant(rng, t):
+    """a tree that differs from t in exactly one small place (or only in object member order: then it is EQUAL)"""
+    import copy as _c
+    t = _c.deepcopy(t)
+    spots = []
+
+    def walk(x, setter):
+        spots.append((x, setter))
+        if x[0] == "a":
+            for i in range(len(x[1])):
+                walk(x[1][i], (lambda v, l=x[1], i=i: l.__setitem__(i, v)))
+        elif x[0] == "o":
+            for i in range(len(x[1])):
+                walk(x[1][i][1], (lambda v, l=x[1], i=i: l.__setitem__(i, (l[i][0], v))))
+    holder = [t]
+    walk(t, lambda v: holder.__setitem__(0, v))
+    x, setter = rng.choice(spots)
+    k = x[0]
+    if k == "b":
+        setter(("b", not x[1]))
+    elif k == "z":
+        setter(rng.choice([("b", False), ("s", b""), ("n", 0), ("a", []), ("o", [])]))
+    elif k == "s":
+        sv = x[1]
+        setter(("s", rng.choice([sv + b"x", b"x" + sv, sv[:-1] if sv else b"y", sv.swapcase() if sv.swapcase() != sv else sv + b"A",
+                                 sv + b" "])))
+    elif k == "n":
+        d = N.dbl_of(x[1])
+        nd = d + 1 if abs(d) < 2**50 else d * 2
+        setter(("n", d2b(nd)) if nd == nd and abs(nd) != float("inf") else ("z",))
+    elif k == "a":
+        r = rng.random()
+        if x[1] and r < 0.35:
+            setter(("a", x[1][:-1]))
+        elif len(x[1]) >= 2 and r < 0.6:
+            l2 = list(x[1]); l2[0], l2[-1] = l2[-1], l2[0]
+            setter(("a", l2))
+        elif r < 0.8:
+            setter(("a", x[1] + [("z",)]))
+        else:
+            setter(("o", []))
+    else:
+        r = rng.random()
+        if len(x[1]) >= 2 and r < 0.4:
+            l2 = list(x[1]); rng.shuffle(l2)          # member order only: still equal
+            setter(("o", l2))
+        elif x[1] and r < 0.6:
+            setter(("o", x[1][1:]))
+        elif x[1] and r < 0.8:
+            l2 = list(x[1]); l2[0] = (l2[0][0] + b"_", l2[0][1])
+            setter(("o", l2))
+        else:
+            setter(("o", x[1] + [(b"zz_new", ("z",))]))
+    return holder[0]
+
+
+def nearmiss_case(rng):
+    """two trees that differ in exactly one leaf / one key / one element (or only in member order), compared in both
+    orders and under both case flags; the oracle decides with its own notion of JSON equality"""
+    e = Emit()
+    t = gen_tree(rng, rng.choice([0, 1, 2, 3]), width=3)
+    u = _variant(rng, t)
+    a, b = e.build(t), e.build(u)
+    e.ops += [f"cmp {a} {b} 1", f"cmp {b} {a} 1", f"cmp {a} {b} 0", f"cmp {b} {a} 0", f"dup {a} c", f"cmp c {b} 1", f"cmp {b} c 0"]
+    return e.case({"kind": "nearmiss"})
+
+
+def long_bytes(rng):
+    n = rng.choice([255, 256, 257, 300, 301, 511, 512, 600, 1000, 2000, rng.randint(250, 1500)])
+    base = bytearray(rng.choice([b"a", b"ab", "é".encode(), b"x y", b"/"]) * n)[:n]
+    for _ in range(rng.choice([0, 1, 1, 2, 3, 8])):
+        pos = rng.choice([0, len(base) - 1, rng.randrange(len(base))])
+        base[pos] = rng.choice([1, 7, 8, 9, 10, 12, 13, 0x1F, 0x22, 0x5C, 0x7F])
+    return bytes(base)
+
+
+def longstring_case(rng):
+    """strings and keys of 250-2000 bytes with none / one / a few characters that need escaping (at the start, at the
+    end, inside): both copy paths of print_string_ptr and the buffer growth inside one token"""
+    e = Emit()
+    r = rng.random()
+    if r < 0.4:
+        t = ("s", long_bytes(rng))
+    elif r < 0.7:
+        t = ("a", [("s", long_bytes(rng)), ("b", True), ("s", long_bytes(rng))])
+    else:
+        t = ("o", [(long_bytes(rng), ("s", long_bytes(rng))), (b"k", ("a", [("s", long_bytes(rng))]))])
+    s = e.build(t)
+    e.ops += [f"print {s} compact", f"reparse {s} compact r0", "dump r0", f"reparse {s} formatted r1", "dump r1", f"dup {s} d", f"cmp d {s} 1"]
+    if rng.random() < 0.5:
+        text = py_text(rng, t)
+        e.hint_text(text)
+        e.ops += [f"parse p {hx(text)}", "dump p", f"cmp p {s} 1"]
+    return e.case({"kind": "longstring"})
+
+
+def huge_array_case(rng):
+    """an array with more than 32767 / 65535 elements: indices beyond the range of a short must still work"""
+    n = rng.choice([33000, 66000])
+    vals = [i % 10 for i in range(n)]
+    text = b"[" + b",".join(b"%d" % v for v in vals) + b"]"
+    e = Emit()
+    e.ops += [f"parse p {hx(text)}", "arr_size p"]
+    for i in (32767, 32768, n - 1, 65535 if n > 65536 else 40000 % n, 65536 if n > 65537 else 32769):
+        e.ops += [f"arr_get p {i}"]
+    e.ops += [f"arr_remove p {n - 2}", "arr_size p", f"arr_get p {n - 2}", "arr_remove p 32768", "arr_size p", f"arr_get p {n}", f"arr_remove p {n}"]
+    return e.case({"kind": "huge", "n": n})
 
 
 def dump_tree(t):
